@@ -2,10 +2,11 @@
 use super::fields::{Field, RecInfo};
 use serde_json::{json, Value};
 
-pub const VCS: [&str; 26] = [
+pub const VCS: [&str; 42] = [
     "zero", "one", "max", "max-1", "hi7f", "hi80", "inc", "dec", "dbl", "filelen", "tablelen", "self", "parent",
     "eqprev", "eqnext", "prev+1", "next-1", "prev-1", "next+1", "uwrap-prev", "uwrap-next", "swrap-prev", "swrap-next",
     "half", "der-1", "der-half",
+    "bit0", "bit1", "bit2", "bit3", "bit4", "bit5", "bit6", "bit7", "bit8", "bit9", "bit10", "bit11", "bit12", "bit13", "bit14", "bit15",
 ];
 /// FaultModel!DerClasses: the new value is a function of the value the other fields of the font imply for the field
 pub const DER_CLASSES: [&str; 2] = ["der-1", "der-half"];
@@ -30,9 +31,23 @@ pub fn is_rel_class(vc: &str) -> bool {
 pub fn is_der_class(vc: &str) -> bool {
     DER_CLASSES.contains(&vc)
 }
+/// FaultModel!BitClasses / BitNo: "bitK" toggles bit K (from the least significant bit of the field)
+pub fn bit_no(vc: &str) -> Option<u32> {
+    vc.strip_prefix("bit").and_then(|k| k.parse::<u32>().ok()).filter(|k| *k < 16)
+}
+pub fn is_bit_class(vc: &str) -> bool {
+    bit_no(vc).is_some()
+}
+/// FaultModel!HasBit
+pub fn has_bit(vc: &str, w: u8) -> bool {
+    bit_no(vc).map_or(true, |k| k < 8 * w as u32)
+}
 /// FaultModel!ClassApplies
 pub fn class_applies(vc: &str, role: &str) -> bool {
-    (!is_ref_class(vc) || role == "offset" || role == "index") && (!is_rel_class(vc) || role != "version") && (!is_der_class(vc) || role == "count" || role == "length" || role == "offset")
+    (!is_ref_class(vc) || role == "offset" || role == "index")
+        && (!is_rel_class(vc) || role != "version")
+        && (!is_der_class(vc) || role == "count" || role == "length" || role == "offset")
+        && (!is_bit_class(vc) || role == "version")
 }
 /// FaultModel!HasDer
 pub fn has_der(vc: &str, dv: i64) -> bool {
@@ -91,7 +106,10 @@ pub fn new_value(vc: &str, old: u64, w: u8, flen: u64, tlen: u64, sv: i64, pv: i
         "uwrap-next" => n.wrapping_neg(),
         "swrap-prev" => hi80.wrapping_sub(p),
         "swrap-next" => hi80.wrapping_sub(n),
-        other => panic!("value class {}", other),
+        other => match bit_no(other) {
+            Some(k) => old ^ (1u64 << k),
+            None => panic!("value class {}", other),
+        },
     };
     v & mask
 }
@@ -144,7 +162,7 @@ pub fn apply(buf: &mut Vec<u8>, f: &CF, fields: &[Field], recs: &[RecInfo]) -> A
             let target = if fd.level == "dir" && ["sfnt", "ttcf", "wOFF", "wOF2"].contains(&fd.tbl.as_str()) { "*".to_string() } else { fd.tbl.clone() };
             let (pb, nb) = (sibling(buf, fd.prevo, fd.w), sibling(buf, fd.nexto, fd.w));
             let has_rel = (!is_prev_class(vc) || pb.is_some()) && (!is_next_class(vc) || nb.is_some());
-            match rd(buf, fd.off, fd.w).filter(|_| has_ref(vc, fd.selfv, fd.parentv) && has_der(vc, fd.dv) && has_rel) {
+            match rd(buf, fd.off, fd.w).filter(|_| has_ref(vc, fd.selfv, fd.parentv) && has_der(vc, fd.dv) && has_bit(vc, fd.w) && has_rel) {
                 Some(old) => {
                     let new = new_value(vc, old, fd.w, flen, fd.tlen as u64, fd.selfv, fd.parentv, fd.dv, pb, nb);
                     wr(buf, fd.off, fd.w, new);
@@ -234,7 +252,7 @@ pub fn apply_model_fault(buf: &mut Vec<u8>, f: &Value) {
             let vc = f["vc"].as_str().unwrap();
             let (pb, nb) = (sibling(buf, f["po"].as_i64().unwrap_or(-1), w), sibling(buf, f["no"].as_i64().unwrap_or(-1), w));
             let has_rel = (!is_prev_class(vc) || pb.is_some()) && (!is_next_class(vc) || nb.is_some());
-            if let Some(old) = rd(buf, off, w).filter(|_| has_ref(vc, sv, pv) && has_der(vc, dv) && has_rel) {
+            if let Some(old) = rd(buf, off, w).filter(|_| has_ref(vc, sv, pv) && has_der(vc, dv) && has_bit(vc, w) && has_rel) {
                 let flen = buf.len() as u64;
                 wr(buf, off, w, new_value(vc, old, w, flen, u("tlen") as u64, sv, pv, dv, pb, nb));
             }
